@@ -8,6 +8,7 @@
 #include <tulz/DirectoryVisitor.h>
 #include <tulz/Exception.h>
 
+#include <dirent.h>
 #include <fcntl.h>
 #include <sys/stat.h>
 #include <unistd.h>
@@ -25,6 +26,16 @@
 using tulz::Path;
 using tulz::DirectoryVisitor;
 namespace fs = std::filesystem;
+
+static long fdBaseline = 0;
+static long openFds() {
+    long n = 0;
+    if (DIR *d = ::opendir("/proc/self/fd")) {
+        while (::readdir(d) != nullptr) ++n;
+        ::closedir(d);
+    }
+    return n;
+}
 
 static std::string root;
 static std::vector<std::unique_ptr<DirectoryVisitor>> visitors;
@@ -87,8 +98,11 @@ static std::string step(const std::vector<std::string> &t) {
             while (!visitors.empty()) visitors.pop_back();
             root = unhex(t[2]);
             if (chdir(root.c_str()) != 0) return "!harness-chdir";
+            fdBaseline = openFds();
             return "ok";
         }
+        // descriptors opened since `root` and still open (Path opens streams and directories only for the duration of a call)
+        if (op == "fds") { o << "n=" << (openFds() - fdBaseline); return o.str(); }
         // ---- strings
         if (op == "name") return hex(Path(unhex(t[2])).getPathName());
         if (op == "parent") return hex(Path(unhex(t[2])).getParentDirectory().toString());
